@@ -174,7 +174,15 @@ class Gen:
 
     # ------------------------------------------------------------------ statements
     KINDS = ('assign', 'compound', 'call', 'do', 'while', 'repeat', 'if', 'fornum', 'forin', 'function', 'localfunction', 'local',
-             'goto', 'label', 'shortif', 'print')
+             'goto', 'label', 'shortif', 'print', 'parencall', 'parenassign')
+
+    def _paren_prefix(self, depth, vararg):
+        t, e = self.exp(max(depth - 1, 0), vararg)
+        toks, nf = [b'('] + t + [b')'], ('paren', e)
+        if self.r.random() < 0.4:
+            n = self.name()
+            toks, nf = toks + [b'.', n], ('attr', nf, n)
+        return toks, nf
 
     def stat(self, depth, in_loop=False, vararg=False, kind=None, in_shortif=False):
         kind = kind or self.r.choice(self.KINDS)
@@ -182,6 +190,28 @@ class Gen:
             kind = 'assign'
         if kind == 'shortif' and (in_shortif or depth <= 0 or self.in_short):
             kind = 'assign'
+        if kind in ('parencall', 'parenassign') and (in_shortif or self.in_short):
+            kind = 'assign'
+        if kind == 'parencall':
+            # a statement that begins with '(' : prefixexp ::= '(' exp ')'.  After a statement that ends in an expression it would read
+            # as a call of that expression, so it is always written behind an explicit empty statement ';'
+            toks, nf = self._paren_prefix(depth, vararg)
+            if self.r.random() < 0.3:
+                n = self.name()
+                t, a = self.args(max(depth - 1, 0), vararg)
+                return [b';'] + toks + [b':', n] + t, ('callstat', ('mcall', nf, n, a))
+            t, a = self.args(max(depth - 1, 0), vararg)
+            return [b';'] + toks + t, ('callstat', ('call', nf, a))
+        if kind == 'parenassign':
+            toks, nf = self._paren_prefix(depth, vararg)
+            if self.r.random() < 0.5:
+                n = self.name()
+                toks, v = toks + [b'.', n], ('attr', nf, n)
+            else:
+                t2, e = self.exp(max(depth - 1, 0))
+                toks, v = toks + [b'['] + t2 + [b']'], ('index', nf, e)
+            t, es = self.explist(depth, vararg)
+            return [b';'] + toks + [b'='] + t, ('assign', [v], b'=', es)
         if kind == 'assign':
             n = self.r.randrange(1, 3)
             toks, vs = [], []
